@@ -27,7 +27,7 @@ ASSUMPTIONS = ["vmon/ref/grouping.py states the documented rules"]
 MONITORS = ["group", "group_raises", "count_steps", "count_mines", "count_holds_rolls"]
 REQUIRED = ["overlapping_holds", "interrupted_head", "orphan_tail", "unclosed_head", "same_beat_mixed_types",
             "corpus_chart", "interrupted_head_while_younger_open", "type_subset", "stream_given_as_notedata",
-            "full_row_with_minimum_equal_to_columns"]
+            "full_row_with_minimum_equal_to_columns", "consecutive_notes_less_than_a_tick_apart"]
 
 GRID_KINDS = "01234M"  # index 0..4 used: 0 empty, 1 tap, 2 hold head, 3 tail, 4 -> mine
 GRID_MAP = ["0", "1", "2", "3", "M"]
@@ -180,6 +180,9 @@ def observe_features(ctx, model):
             k == "head" and any(m[1] == model[i][1] and m[0] > model[i][0] for m in model[i + 1:]) for k, i in events) else "unclosed_head")
         if open_:
             ctx.feat("unclosed_head")
+    bl = sorted({n[0] for n in model})
+    if any(0 < b2 - b1 < Fraction(1, 48) for b1, b2 in zip(bl, bl[1:])):
+        ctx.feat("consecutive_notes_less_than_a_tick_apart")
     beats = {}
     for n in model:
         beats.setdefault(n[0], set()).add(n[2])
